@@ -5,6 +5,7 @@ import (
 	"fmt"
 	"os"
 	"path/filepath"
+	"strings"
 	"time"
 
 	"github.com/tonistiigi/fsutil"
@@ -111,6 +112,32 @@ func runFault(c *Ctx, caseNo int, in faultInput, srcDir string) ([]vt.Ev, *SyncR
 			conn.R.Faults = []hstream.Fault{{Op: "send", K: in.K, Do: cancelR}}
 		case "R.cancel@recv":
 			conn.R.Faults = []hstream.Fault{{Op: "recv", K: in.K, Do: cancelR}}
+		}
+	}
+	o.SetupCallOnly = func(conn *hstream.Conn, cancelS, cancelR context.CancelFunc) {
+		if in.Kind == "R.cancelCall@readBlocked" || in.Kind == "S.cancelCall@readBlocked" {
+			// the source's reader is stuck mid-file; once everything else has drained, one call's context is
+			// cancelled (the stream does not notice), and a little later the reader is released
+			ffs.BlockAt, ffs.BlockAfter, ffs.Release = in.K, in.J, make(chan struct{})
+			ffs.OnBlock = func() {
+				time.Sleep(300 * time.Millisecond)
+				conn.Log(vt.Ev{"ev": "Fault", "ep": in.Kind[:1], "op": "cancelCall@readBlocked", "k": in.K})
+				if in.Kind[0] == 'R' {
+					cancelR()
+				} else {
+					cancelS()
+				}
+				time.Sleep(300 * time.Millisecond)
+				close(ffs.Release)
+			}
+		}
+		switch in.Kind {
+		case "S.cancelCall@send":
+			conn.S.Faults = []hstream.Fault{{Op: "send", K: in.K, Do: cancelS}}
+		case "R.cancelCall@recv":
+			conn.R.Faults = []hstream.Fault{{Op: "recv", K: in.K, Do: cancelR}}
+		case "R.cancelCall@send":
+			conn.R.Faults = []hstream.Fault{{Op: "send", K: in.K, Do: cancelR}}
 		}
 	}
 	res, err := RunSync(caseNo, src, dst, o)
@@ -244,7 +271,9 @@ func Faults(c *Ctx) error {
 		}{
 			{"S.send", cnt.SSend}, {"S.recv", cnt.SRecv}, {"R.send", cnt.RSend}, {"R.recv", cnt.RRecv},
 			{"S.cancel@send", cnt.SSend}, {"S.cancel@recv", cnt.SRecv}, {"R.cancel@send", cnt.RSend}, {"R.cancel@recv", cnt.RRecv},
+			{"S.cancelCall@send", cnt.SSend}, {"R.cancelCall@recv", cnt.RRecv}, {"R.cancelCall@send", cnt.RSend},
 			{"walk", cnt.Walks}, {"open", cnt.Opens}, {"read", cnt.Opens}, {"hasher", cnt.Hasher}, {"notify", cnt.Notify},
+			{"R.cancelCall@readBlocked", cnt.Opens}, {"S.cancelCall@readBlocked", cnt.Opens},
 		}
 		// SIGKILL of the receiving process at the sender's k-th SendMsg
 		if len(sc.OnlyKinds) == 0 && sc.SlowData == 0 {
@@ -298,7 +327,7 @@ func Faults(c *Ctx) error {
 			// operation indexes: all of them for small scenarios, a spread for large ones
 			var ks []int
 			first := 0
-			if kd.kind == "walk" || kd.kind == "open" || kd.kind == "read" || kd.kind == "hasher" || kd.kind == "notify" {
+			if kd.kind == "walk" || kd.kind == "open" || kd.kind == "read" || kd.kind == "hasher" || kd.kind == "notify" || strings.HasSuffix(kd.kind, "@readBlocked") {
 				first = 1
 			}
 			limit := 40
@@ -346,6 +375,9 @@ func Faults(c *Ctx) error {
 				in.Kind, in.K = kd.kind, k
 				if kd.kind == "read" {
 					in.J = []int{0, 1, 32768, 40000}[c.Rand.Intn(4)]
+				}
+				if strings.HasSuffix(kd.kind, "@readBlocked") {
+					in.J = []int{0, 1, 10, 32768}[c.Rand.Intn(4)]
 				}
 				n := c.caseNo + 1
 				c.caseNo += 2
